@@ -849,7 +849,7 @@ theorem LoadedSec.bufOk {tr img} {b : SecBuf} (h : LoadedSec tr b img) : BufOk b
 theorem getString_total' (b : SecBuf) (hb : BufOk b) (idx : BitVec 32) :
     ∃ r, getString b idx = .ok r ∧
       ∀ s, r = some s → ∃ d, b.data = some d ∧ CStrAt d b.size.toNat idx.toNat s := by
-  unfold getString
+  rw [LoadTie.getString_hand]
   cases hd : b.data with
   | none => exact ⟨none, rfl, fun s hs => by cases hs⟩
   | some d =>
@@ -868,7 +868,7 @@ theorem resolveNames_eq (strtab : SecBuf) (hb : BufOk strtab) (secs : List SecBu
   | nil => rfl
   | cons b rest ih =>
     obtain ⟨r, hr, -⟩ := getString_total' strtab hb b.nameOff
-    rw [LoadTie.resolveNames_cons]
+    unfold resolveNames
     rw [hr, ih]
     cases r <;> simp [bind, Except.bind, pure, Except.pure, withName, hr]
 
